@@ -103,10 +103,12 @@ def write_coqproject():
         run(['coq_makefile', '-f', '_CoqProject', '-o', 'Makefile.coq'], 120, cwd=COQ)
 
 
-def make(targets, timeout=1500, jobs=16):
+def make(targets, timeout=2400, jobs=16):
     """build the given .vo targets (paths relative to coq/); returns (ok, log)"""
     write_coqproject()
-    rc, out, err, dt = run(['make', '-f', 'Makefile.coq', f'-j{jobs}', '-k'] + targets, timeout, cwd=COQ)
+    # every coqc invocation is capped: a proof that no longer matches the code can send reflexivity / apply into an unbounded
+    # unification instead of failing; a file that exceeds the cap counts as not compiling
+    rc, out, err, dt = run(['make', '-f', 'Makefile.coq', f'-j{jobs}', '-k', 'COQC=timeout 420 coqc'] + targets, timeout, cwd=COQ)
     return rc == 0, out + err, dt
 
 
